@@ -3,6 +3,15 @@
 // Outgoing datagrams are captured by the executable's own sendto(); replies are delivered through the protected
 // onUdpRecv (what UdpSocket::onSocketEvent would call). A duplicated reply is the same reply op occurring again: every
 // reply op stays enabled for the whole history, so all orders and all duplications are enumerated.
+// Lanes (environment, set by check.py):
+//   C15_VIA_SOCKET=1  replies go through the real receive path UdpSocket::onSocketEvent(kReadEvent) with the executable's own
+//                     recvfrom() (common.h) - only while the socket's read event is enabled, as a loop would - plus the
+//                     kernel behaviours "zero-length datagram" and "recvfrom fails"; completion callbacks then run nested
+//                     inside the socket's receive callback
+//   C15_FOLLOWUP=1    re-entrant completion callbacks: one that issues a follow-up lookup, one that cancels another
+//                     lookup that is still pending (never itself); 5-tick advances
+//   C15_CONFIG=1      DnsRequest(loop) + setDnsIPAddresses(); op setServers(k), k in 0..2, also while lookups are pending
+//   C15_IDWRAP=1      (off by default, see check.py) the id counter starts at 0xFFFD so that the 16-bit id wraps
 #include "hist/hist.h"
 #include "common.h"
 #include <tbox/event/common_loop.h>
@@ -30,10 +39,13 @@ extern "C" int epoll_wait(int epfd, struct epoll_event *ev, int maxev, int) { re
 extern "C" int select(int nfds, fd_set *r, fd_set *w, fd_set *e, struct timeval *) { struct timeval z = {0, 0}; return (int)syscall(SYS_select, nfds, r, w, e, &z); }
 
 using network::DnsRequest;
-enum K { REQ, CANCEL, REPLY, TICK };
-enum RK { OK, SERVFAIL, NXDOMAIN, FORMERR, QUERY, UNKNOWN_ID, OK_WRONG_QUESTION, NRK };
-static const char *rkN[] = {"ok", "servfail", "nxdomain", "formerr", "query-not-reply", "unknown-id", "ok-wrong-question"};
-struct Op { int k, i, s, r; };    // i = lookup index / domain, s = server, r = reply kind
+enum K { REQ, CANCEL, REPLY, TICK, SETSRV };
+// TRUNCATED / PTR_LOOP: replies with the lookup's id that cannot be decoded - they must be ignored AND leave the lookup intact
+// (it still completes with the next acceptable reply / the all-failed status / the timeout). RX_EMPTY / RX_FAIL: socket lane only.
+enum RK { OK, SERVFAIL, NXDOMAIN, FORMERR, QUERY, UNKNOWN_ID, OK_WRONG_QUESTION, TRUNCATED, PTR_LOOP, NRK, RX_EMPTY = NRK, RX_FAIL };
+static const char *rkN[] = {"ok", "servfail", "nxdomain", "formerr", "query-not-reply", "unknown-id", "ok-wrong-question", "ok-cut-inside-the-answer", "ok-answer-name-is-a-pointer-loop",
+                            "zero-length-datagram", "recvfrom-fails"};
+struct Op { int k, i, s, r; };    // i = lookup index / domain / server count, s = server, r = reply kind / callback flavour
 static const char *kDomains[] = {"a.b", "c.d"};
 static int kServers = 2, kMaxLookups = 2;   // argv
 static const int kTimeoutTicks = 5, kMaxServers = 3;
@@ -41,36 +53,48 @@ static const int kTimeoutTicks = 5, kMaxServers = 3;
 static Bytes make_reply(uint16_t id, int dom, int look, int server, int kind) {
   unsigned flags = 0x8180; int an = 0; int qdom = dom;
   switch (kind) { case OK: an = 1; break; case SERVFAIL: flags |= 2; break; case NXDOMAIN: flags |= 3; break; case FORMERR: flags |= 1; break;
-    case QUERY: flags = 0x0100; break; case UNKNOWN_ID: id = 0x7777; an = 1; break; case OK_WRONG_QUESTION: an = 1; qdom = 1 - dom; break; }
+    case QUERY: flags = 0x0100; break; case UNKNOWN_ID: id = 0x7777; an = 1; break; case OK_WRONG_QUESTION: an = 1; qdom = 1 - dom; break; case TRUNCATED: case PTR_LOOP: an = 1; break; }
   Bytes b = header(id, flags, 1, an, 0, 0); put_name(b, kDomains[qdom]); put16(b, 1); put16(b, 1);
-  if (an) { put16(b, 0xc00c); put16(b, 1); put16(b, 1); put32(b, 60); put16(b, 4); b.insert(b.end(), {10, (uint8_t)(look + 1), (uint8_t)(server + 1), (uint8_t)(kind == OK ? 7 : 9)}); }
+  if (an) { put16(b, kind == PTR_LOOP ? (0xc000 | (unsigned)b.size()) : 0xc00c); put16(b, 1); put16(b, 1); put32(b, 60); put16(b, 4); b.insert(b.end(), {10, (uint8_t)(look + 1), (uint8_t)(server + 1), (uint8_t)(kind == OK ? 7 : 9)}); }
+  if (kind == TRUNCATED) b.resize(b.size() - 3);
   return b;
 }
 
-struct Look { uint16_t id = 0; int dom = 0; int state = 0 /*0 pending 1 done 2 cancelled*/; int calls = 0; int status = -1; std::vector<Addr> addrs; bool failed[kMaxServers] = {false, false, false}; int nfail = 0; int age = 0; bool followup = false /*its callback issues one more lookup*/; };
+struct Look { uint16_t id = 0; int dom = 0; int state = 0 /*0 pending 1 done 2 cancelled 3 refused (no servers configured)*/; int calls = 0; int status = -1; std::vector<Addr> addrs; bool failed[kMaxServers] = {false, false, false}; int nfail = 0; int age = 0;
+  int flavour = 0 /*1: its callback issues one more lookup; 2: its callback cancels another lookup that is still pending*/; int nq = 0 /*servers queried*/; bool cancelled_in_cb = false; };
 static long g_dup_counted = 0, g_wrongq_accepted = 0, g_wrongq_ignored = 0, g_timeouts = 0, g_allfail = 0, g_success = 0, g_ignored_ok = 0;
+static long g_undecodable = 0, g_not_listening = 0, g_cb_cancels = 0, g_cb_followups = 0, g_refused = 0, g_srvchg_completed = 0, g_srvchg_waiting = 0, g_rx_nothing = 0;
 
 int main(int argc, char **argv) {
   std::string engine = argc > 1 ? argv[1] : "epoll"; size_t depth = argc > 2 ? atoi(argv[2]) : 6;
   if (argc > 3) kMaxLookups = std::min(3, atoi(argv[3])); if (argc > 4) kServers = std::min(kMaxServers, atoi(argv[4]));
+  static const bool lane = getenv("C15_FOLLOWUP") != nullptr;      // re-entrant completion callbacks, 5-tick advances
+  static const bool via_socket = getenv("C15_VIA_SOCKET") != nullptr;
+  static const bool cfg_lane = getenv("C15_CONFIG") != nullptr;
+  static const bool idwrap = getenv("C15_IDWRAP") != nullptr;
   hx::install_crash_reporter("dns-lookup-crash");
-  hx::Explorer<Op> ex; ex.name = "lookups-" + engine + "-" + std::to_string(kMaxLookups) + "lookups-" + std::to_string(kServers) + "servers"; ex.deadline_s = hx::deadline_from_env(600);
+  hx::Explorer<Op> ex; ex.name = "lookups-" + engine + "-" + std::to_string(kMaxLookups) + "lookups-" + std::to_string(kServers) + "servers" + (via_socket ? "-via-socket-event" : "") + (lane ? "-reentrant-callbacks" : "") + (cfg_lane ? "-setservers" : "") + (idwrap ? "-idwrap" : "");
+  ex.deadline_s = hx::deadline_from_env(600);
   if (getenv("C15_DEADLINE_MONO")) ex.deadline_s = atof(getenv("C15_DEADLINE_MONO"));   // absolute CLOCK_MONOTONIC seconds (set by check.py)
-  ex.show = [](const Op &o) { char b[64];
-    switch (o.k) { case REQ: snprintf(b, sizeof b, o.r ? "request(%s,callback-issues-a-followup-lookup)" : "request(%s)", kDomains[o.i]); break; case CANCEL: snprintf(b, sizeof b, "cancel(#%d)", o.i); break;
-      case REPLY: if (o.r == UNKNOWN_ID) snprintf(b, sizeof b, "reply(unknown-id,from-s%d)", o.s); else snprintf(b, sizeof b, "reply(#%d,from-s%d,%s)", o.i, o.s, rkN[o.r]); break;
+  ex.show = [](const Op &o) { char b[96];
+    switch (o.k) { case REQ: snprintf(b, sizeof b, o.r == 1 ? "request(%s,callback-issues-a-followup-lookup)" : o.r == 2 ? "request(%s,callback-cancels-another-pending-lookup)" : "request(%s)", kDomains[o.i]); break; case CANCEL: snprintf(b, sizeof b, "cancel(#%d)", o.i); break;
+      case REPLY: if (o.r == UNKNOWN_ID) snprintf(b, sizeof b, "reply(unknown-id,from-s%d)", o.s); else if (o.r >= NRK) snprintf(b, sizeof b, "socket-readable(%s)", rkN[o.r]); else snprintf(b, sizeof b, "reply(#%d,from-s%d,%s)", o.i, o.s, rkN[o.r]); break;
+      case SETSRV: snprintf(b, sizeof b, "setServers(%d)", o.i); break;
       default: snprintf(b, sizeof b, "tick(+%ds)", o.i > 0 ? o.i : 1); }
     return std::string(b); };
   ex.menu = [&](const std::vector<Op> &h) {
-    std::vector<Op> m; int issued = 0; for (auto &o : h) if (o.k == REQ) issued++;
-    static const bool lane = getenv("C15_FOLLOWUP") != nullptr;    // lane: lookups whose callback issues one more lookup (retry-on-timeout idiom), 5-tick advances
+    std::vector<Op> m; int issued = 0, cur = kServers; std::vector<int> nq;     // nq[i] = servers that lookup #i queried
+    for (auto &o : h) { if (o.k == SETSRV) cur = o.i; if (o.k == REQ) { issued++; nq.push_back(cur); } }
     if (issued < kMaxLookups) for (int d = 0; d < 2; d++) m.push_back({REQ, d, 0, 0});
-    if (lane && issued < kMaxLookups) m.push_back({REQ, 0, 0, 1});
+    if (lane && issued < kMaxLookups) { m.push_back({REQ, 0, 0, 1}); m.push_back({REQ, 0, 0, 2}); }
     m.push_back({TICK, 1, 0, 0});
-    if (lane) m.push_back({TICK, kTimeoutTicks, 0, 0});
+    if (lane || cfg_lane) m.push_back({TICK, kTimeoutTicks, 0, 0});
+    if (cfg_lane) for (int k = 0; k <= kServers; k++) if (k != cur) m.push_back({SETSRV, k, 0, 0});
     for (int i = 0; i < issued; i++) { m.push_back({CANCEL, i, 0, 0});
-      for (int s = 0; s < kServers; s++) for (int r = 0; r < NRK; r++) if (r != UNKNOWN_ID) m.push_back({REPLY, i, s, r}); }
+      // replies come from servers that were queried (whether a reply from an address never queried is acceptable is not defined by the statement)
+      for (int s = 0; s < nq[i]; s++) for (int r = 0; r < NRK; r++) if (r != UNKNOWN_ID) m.push_back({REPLY, i, s, r}); }
     m.push_back({REPLY, 0, 0, UNKNOWN_ID});
+    if (via_socket) { m.push_back({REPLY, 0, 0, RX_EMPTY}); m.push_back({REPLY, 0, 0, RX_FAIL}); }
     return m; };
   ex.run = [&](const std::vector<Op> &h, std::string &viol) {
     Virt virt; g_mono_ms = 5000000; g_sent.clear(); g_keep_sent = true;
@@ -78,47 +102,78 @@ int main(int argc, char **argv) {
     static const char *ips[kMaxServers] = {"10.0.0.1", "10.0.0.2", "10.0.0.3"};
     DnsRequest::IPAddressVec srv; std::vector<network::SockAddr> from;
     for (int s = 0; s < kServers; s++) { srv.push_back(network::IPAddress::FromString(ips[s])); from.push_back(network::SockAddr(srv.back(), 53)); }
-    Dns *dns = new Dns(loop, srv);
+    Dns *dns; int cur = kServers;       // cur = number of servers configured now (model)
+    if (cfg_lane) { dns = new Dns(loop); dns->setDnsIPAddresses(srv); } else dns = new Dns(loop, srv);
+    if (idwrap) dns->req_id_alloc_ = 0xFFFD;
     std::vector<Look> L; L.reserve(8);
     auto fail = [&](const std::string &s) { if (viol.empty()) viol = s; };
+    // what request() must do, judged by the model: one well-formed query per configured server, a fresh non-zero id; with no server: id 0, nothing sent, never a callback
+    auto judge_request = [&](size_t idx, size_t sent_before) {
+      Look &l = L[idx]; l.nq = cur;
+      if (cur == 0) { l.state = 3; g_refused++; if (l.id != 0) fail("dns-lookup-request-without-servers-returned-an-id"); if (g_sent.size() != sent_before) fail("dns-lookup-request-without-servers-sent-a-datagram"); return; }
+      if (l.id == 0) { fail("dns-lookup-request-returned-id-0"); return; }
+      for (size_t j = 0; j < L.size(); j++) if (j != idx && L[j].state != 3 && L[j].id == l.id) fail("dns-lookup-request-id-reused-while-known");
+      if (g_sent.size() - sent_before != (size_t)cur) { fail("dns-lookup-request-did-not-send-one-query-per-server sent=" + std::to_string(g_sent.size() - sent_before)); return; }
+      for (size_t j = sent_before; j < g_sent.size(); j++) { const Bytes &q = g_sent[j].data; Bytes exp = header(l.id, 0x0100, 1, 0, 0, 0); put_name(exp, kDomains[l.dom]); put16(exp, 1); put16(exp, 1);
+        if (q != exp || g_sent[j].port != 53 || g_sent[j].ip != (uint32_t)srv[j - sent_before]) fail("dns-lookup-query-datagram-malformed " + hex(q)); }
+    };
+    std::function<DnsRequest::Callback(size_t)> mkcb = [&](size_t idx) -> DnsRequest::Callback {
+      return [&, idx](const DnsRequest::Result &r) {
+        Look &x = L[idx]; x.calls++; x.status = (int)r.status; x.addrs.clear();
+        for (auto &a : r.a_vec) { uint32_t v = a.ip; Addr ad; memcpy(ad.data(), &v, 4); x.addrs.push_back(ad); }
+        if (x.state == 2) fail("dns-lookup-callback-invoked-after-cancel");
+        if (x.state == 3) fail("dns-lookup-callback-invoked-for-a-refused-request");
+        if (x.calls != 1) return;
+        if (x.flavour == 1 && L.size() < 8) {       // a new lookup issued from inside a completion (possibly timeout) callback
+          Look n; n.dom = 1; L.push_back(n); size_t j = L.size() - 1; size_t before = g_sent.size(); g_cb_followups++;
+          uint16_t id = dns->request(network::DomainName(kDomains[1]), mkcb(j)); L[j].id = id; judge_request(j, before);
+        }
+        if (x.flavour == 2) {                       // cancels the first OTHER lookup that is still pending (model's view); never itself
+          for (size_t j = 0; j < L.size(); j++) { Look &v = L[j]; if (j == idx || v.state != 0 || v.calls != 0) continue;
+            g_cb_cancels++; if (!dns->cancel(v.id)) fail("dns-lookup-cancel-returned-false-for-pending-lookup lookup#" + std::to_string(j) + " (cancel from inside the callback of lookup#" + std::to_string(idx) + ")");
+            v.state = 2; v.cancelled_in_cb = true; break; }
+        }
+      };
+    };
+    auto deliver = [&](const Bytes &dg, int s, int kind) {
+      if (!via_socket) { dns->feed(dg.data(), dg.size(), from[s]); return; }
+      // a loop reports readiness only for an enabled event: with the read event disabled nothing is received
+      if (!dns->udp_.sp_socket_ev_->isEnabled()) { g_not_listening++; return; }
+      socket_event(dns, kind == RX_EMPTY ? RX_ZERO : kind == RX_FAIL ? RX_ERROR : RX_DATAGRAM, dg.data(), dg.size(), (uint32_t)srv[s]);
+    };
     for (auto &o : h) {
       // expected effect of this op on the callback counters, computed from the model BEFORE the op runs
       std::vector<int> want_calls; for (auto &l : L) want_calls.push_back(l.calls);
+      std::vector<int> calls_before = want_calls;
       std::vector<int> want_status(L.size(), -2); int either = -1;   // either = lookup that may or may not complete (duplicate server failure)
       switch (o.k) {
         case REQ: {
-          size_t before = g_sent.size(); Look l; l.dom = o.i; l.followup = o.r != 0; L.push_back(l); size_t idx = L.size() - 1;
-          uint16_t id = dns->request(network::DomainName(kDomains[o.i]), [&L, idx, &fail, dns](const DnsRequest::Result &r) {
-            Look &x = L[idx]; x.calls++; x.status = (int)r.status; x.addrs.clear();
-            for (auto &a : r.a_vec) { uint32_t v = a.ip; Addr ad; memcpy(ad.data(), &v, 4); x.addrs.push_back(ad); }
-            if (x.state == 2) fail("dns-lookup-callback-invoked-after-cancel");
-            if (x.followup && x.calls == 1 && L.size() < 8) {       // a new lookup issued from inside a completion (possibly timeout) callback
-              Look n; n.dom = 1; L.push_back(n); size_t j = L.size() - 1;
-              L[j].id = dns->request(network::DomainName(kDomains[1]), [&L, j, &fail](const DnsRequest::Result &r2) { Look &y = L[j]; y.calls++; y.status = (int)r2.status; y.addrs.clear();
-                for (auto &a : r2.a_vec) { uint32_t v = a.ip; Addr ad; memcpy(ad.data(), &v, 4); y.addrs.push_back(ad); } if (y.state == 2) fail("dns-lookup-callback-invoked-after-cancel"); }); } });
+          size_t before = g_sent.size(); Look l; l.dom = o.i; l.flavour = o.r; L.push_back(l); size_t idx = L.size() - 1;
+          uint16_t id = dns->request(network::DomainName(kDomains[o.i]), mkcb(idx));
           L[idx].id = id; want_calls.push_back(0); want_status.push_back(-2);
-          if (id == 0) { fail("dns-lookup-request-returned-id-0"); break; }
-          for (size_t j = 0; j < idx; j++) if (L[j].id == id) fail("dns-lookup-request-id-reused-while-known");
-          if (g_sent.size() - before != (size_t)kServers) { fail("dns-lookup-request-did-not-send-one-query-per-server sent=" + std::to_string(g_sent.size() - before)); break; }
-          for (size_t j = before; j < g_sent.size(); j++) { const Bytes &q = g_sent[j].data; Bytes exp = header(id, 0x0100, 1, 0, 0, 0); put_name(exp, kDomains[o.i]); put16(exp, 1); put16(exp, 1);
-            if (q != exp || g_sent[j].port != 53) fail("dns-lookup-query-datagram-malformed " + hex(q)); }
+          judge_request(idx, before);
         } break;
         case CANCEL: { Look &l = L[o.i]; bool r = dns->cancel(l.id); bool want = l.state == 0;
           if (r != want) fail(std::string("dns-lookup-cancel-returned-") + (r ? "true-for-finished-lookup" : "false-for-pending-lookup"));
           if (l.state == 0) l.state = 2; } break;
-        case REPLY: { bool unk = o.r == UNKNOWN_ID; int i = unk ? -1 : o.i;
-          Bytes dg = unk ? make_reply(0, 0, 0, o.s, o.r) : make_reply(L[i].id, L[i].dom, i, o.s, o.r);
-          if (!unk && o.r != QUERY && L[i].state == 0) { Look &l = L[i];
+        case SETSRV: { DnsRequest::IPAddressVec v(srv.begin(), srv.begin() + o.i); dns->setDnsIPAddresses(v); cur = o.i; } break;
+        case REPLY: { bool unk = o.r == UNKNOWN_ID || o.r >= NRK; int i = unk ? -1 : o.i;
+          Bytes dg = unk ? make_reply(0, 0, 0, o.s, UNKNOWN_ID) : make_reply(L[i].id, L[i].dom, i, o.s, o.r);
+          if (o.r >= NRK) g_rx_nothing++;
+          if (!unk && (o.r == TRUNCATED || o.r == PTR_LOOP)) g_undecodable++;
+          if (!unk && o.r != QUERY && o.r != TRUNCATED && o.r != PTR_LOOP && L[i].state == 0) { Look &l = L[i];
             if (o.r == OK) { want_calls[i]++; want_status[i] = 0; }
             else if (o.r == NXDOMAIN) { want_calls[i]++; want_status[i] = (int)DnsRequest::Result::Status::kDomainError; }
             else if (o.r == FORMERR) { want_calls[i]++; want_status[i] = (int)DnsRequest::Result::Status::kFail; }
             else if (o.r == OK_WRONG_QUESTION) { either = i; want_status[i] = 0; }
-            else if (o.r == SERVFAIL) { l.nfail++; l.failed[o.s] = true; bool all = true; for (int s = 0; s < kServers; s++) all = all && l.failed[s];
-              if (all) { want_calls[i]++; want_status[i] = (int)DnsRequest::Result::Status::kAllDnsFail; }
-              else if (l.nfail >= kServers) { either = i; want_status[i] = (int)DnsRequest::Result::Status::kAllDnsFail; } }
+            else if (o.r == SERVFAIL) { l.nfail++; l.failed[o.s] = true; bool all = true; for (int s = 0; s < l.nq; s++) all = all && l.failed[s];
+              if (cur != l.nq) { either = i; want_status[i] = (int)DnsRequest::Result::Status::kAllDnsFail; }      // server list changed while the lookup was pending: when "all servers failed" holds is not defined
+              else if (all) { want_calls[i]++; want_status[i] = (int)DnsRequest::Result::Status::kAllDnsFail; }
+              else if (l.nfail >= l.nq) { either = i; want_status[i] = (int)DnsRequest::Result::Status::kAllDnsFail; } }
           }
-          dns->feed(dg.data(), dg.size(), from[o.s]);
-          if (either >= 0) { Look &e = L[either]; if (e.calls == want_calls[either] + 1) { want_calls[either]++; if (o.r == SERVFAIL) g_dup_counted++; else g_wrongq_accepted++; } else { want_status[either] = -2; if (o.r == OK_WRONG_QUESTION) g_wrongq_ignored++; } }
+          deliver(dg, o.s, o.r);
+          if (either >= 0) { Look &e = L[either]; bool chg = o.r == SERVFAIL && cur != e.nq;
+            if (e.calls == want_calls[either] + 1) { want_calls[either]++; if (chg) g_srvchg_completed++; else if (o.r == SERVFAIL) g_dup_counted++; else g_wrongq_accepted++; } else { want_status[either] = -2; if (chg) g_srvchg_waiting++; if (o.r == OK_WRONG_QUESTION) g_wrongq_ignored++; } }
         } break;
         case TICK: {
           for (int tk = 0; tk < (o.i > 0 ? o.i : 1); tk++) {
@@ -129,6 +184,10 @@ int main(int argc, char **argv) {
       }
       if (!viol.empty()) break;
       while (want_calls.size() < L.size()) { want_calls.push_back(0); want_status.push_back(-2); }
+      while (calls_before.size() < L.size()) calls_before.push_back(0);
+      // a lookup cancelled from inside another lookup's callback during this op is never invoked: not before (it was pending and
+      // uninvoked when cancelled) and not after (checked inside the callback itself), whatever the order of completions within the op
+      for (size_t i = 0; i < L.size(); i++) if (L[i].cancelled_in_cb) { L[i].cancelled_in_cb = false; want_calls[i] = calls_before[i]; want_status[i] = -2; }
       // compare: exactly the expected callbacks happened during this op, with the expected status / content
       for (size_t i = 0; i < L.size(); i++) {
         Look &l = L[i];
@@ -143,17 +202,21 @@ int main(int argc, char **argv) {
           if (l.status == (int)DnsRequest::Result::Status::kTimeout) g_timeouts++; if (l.status == (int)DnsRequest::Result::Status::kAllDnsFail) g_allfail++;
           l.state = 1;
         }
-        if (dns->isRunning(l.id) != (l.state == 0)) { fail(std::string("dns-lookup-isRunning-") + (l.state == 0 ? "false-for-pending-lookup" : l.state == 1 ? "true-after-completion" : "true-after-cancel") + " lookup#" + std::to_string(i) + " after " + ex.show(o)); break; }
+        if (dns->isRunning(l.id) != (l.state == 0)) { fail(std::string("dns-lookup-isRunning-") + (l.state == 0 ? "false-for-pending-lookup" : l.state == 1 ? "true-after-completion" : l.state == 3 ? "true-for-refused-request" : "true-after-cancel") + " lookup#" + std::to_string(i) + " after " + ex.show(o)); break; }
       }
       if (!viol.empty()) break;
       if (dns->requests_.size() > L.size()) { fail("dns-lookup-table-holds-unknown-entries"); break; }
+      // while a lookup is pending its replies must be receivable: the socket's read event is registered with the loop
+      { bool pending = false; for (auto &l : L) pending = pending || l.state == 0;
+        if (pending && !dns->udp_.sp_socket_ev_->isEnabled()) { fail("dns-lookup-socket-not-listening-while-a-lookup-is-pending after " + ex.show(o)); break; } }
     }
-    // canonical state: implementation (lookup table, timeout wheel, timer, socket event, id counter) + model
-    auto idx_of = [&](uint16_t id) { for (size_t i = 0; i < L.size(); i++) if (L[i].id == id) return (int)i; return -1; };
+    // canonical state: implementation (lookup table, timeout wheel, timer, socket event, id counter, server list) + model
+    auto idx_of = [&](uint16_t id) { for (size_t i = 0; i < L.size(); i++) if (L[i].id == id && L[i].state != 3) return (int)i; return -1; };
     std::string c = "R:"; for (auto &kv : dns->requests_) c += std::to_string(idx_of(kv.first)) + "." + std::to_string(kv.second.response_count) + ",";
     c += "|W:"; { auto *it = dns->timeout_monitor_.curr_item_; for (int k = 0; k < kTimeoutTicks && it; k++, it = it->next) { for (auto v : it->items) c += std::to_string(idx_of(v)); c += "/"; } }
     c += "|vn" + std::to_string(dns->timeout_monitor_.value_number_) + "|t" + std::to_string((int)dns->timeout_monitor_.sp_timer_->isEnabled()) + "|u" + std::to_string((int)dns->udp_.sp_socket_ev_->isEnabled()) + "|id" + std::to_string(dns->req_id_alloc_);
-    c += "|M:"; for (auto &l : L) { c += std::to_string(l.state) + std::to_string(l.calls) + (l.state == 0 ? std::to_string((int)l.failed[0]) + std::to_string((int)l.failed[1]) + std::to_string((int)l.failed[2]) + std::to_string(std::min(l.nfail, kServers)) + std::to_string(l.age) : std::string("")) + "d" + std::to_string(l.dom) + (l.followup && l.calls == 0 ? "F" : "") + ","; }    // a pending follow-up obligation is part of the state
+    c += "|k" + std::to_string(dns->dns_ip_vec_.size()) + "/" + std::to_string(cur);
+    c += "|M:"; for (auto &l : L) { c += std::to_string(l.state) + std::to_string(l.calls) + (l.state == 0 ? std::to_string((int)l.failed[0]) + std::to_string((int)l.failed[1]) + std::to_string((int)l.failed[2]) + std::to_string(std::min(l.nfail, l.nq)) + std::to_string(l.age) + "q" + std::to_string(l.nq) : std::string("")) + "d" + std::to_string(l.dom) + (l.flavour && l.calls == 0 ? (l.flavour == 1 ? "F" : "X") : "") + ","; }    // a pending re-entrant-callback obligation is part of the state
     // destruction must not invoke anything
     std::vector<int> calls; for (auto &l : L) calls.push_back(l.calls);
     delete dns; loop->runNext([] {}); loop->runLoop(event::Loop::Mode::kOnce); delete loop;
@@ -162,9 +225,14 @@ int main(int argc, char **argv) {
     return c;
   };
   ex.explore(depth);
-  printf("@OUTCOME lookups %s: completed-with-success n=%ld\n@OUTCOME lookups %s: completed-with-timeout-at-tick-5 n=%ld\n@OUTCOME lookups %s: completed-with-all-servers-failed n=%ld\n", engine.c_str(), g_success, engine.c_str(), g_timeouts, engine.c_str(), g_allfail);
-  if (g_dup_counted) printf("@OUTCOME lookups %s: duplicated server-failure reply of ONE server counted as the other server's failure (lookup ends with kAllDnsFail; tolerated: the statement allows an error status) n=%ld\n", engine.c_str(), g_dup_counted);
-  if (g_wrongq_accepted) printf("@OUTCOME lookups %s: reply whose question names another domain accepted as answer (tolerated: acceptability is not defined by the statement) n=%ld\n", engine.c_str(), g_wrongq_accepted);
-  if (g_wrongq_ignored) printf("@OUTCOME lookups %s: reply whose question names another domain ignored n=%ld\n", engine.c_str(), g_wrongq_ignored);
+  const char *en = ex.name.c_str();
+  printf("@OUTCOME %s: completed-with-success n=%ld\n@OUTCOME %s: completed-with-timeout-at-tick-5 n=%ld\n@OUTCOME %s: completed-with-all-servers-failed n=%ld\n", en, g_success, en, g_timeouts, en, g_allfail);
+  printf("@OUTCOME %s: undecodable replies carrying a pending or finished lookup's id delivered (must be ignored, lookup must stay intact) n=%ld\n", en, g_undecodable);
+  if (g_dup_counted) printf("@OUTCOME %s: duplicated server-failure reply of ONE server counted as the other server's failure (lookup ends with kAllDnsFail; tolerated: the statement allows an error status) n=%ld\n", en, g_dup_counted);
+  if (g_wrongq_accepted) printf("@OUTCOME %s: reply whose question names another domain accepted as answer (tolerated: acceptability is not defined by the statement) n=%ld\n", en, g_wrongq_accepted);
+  if (g_wrongq_ignored) printf("@OUTCOME %s: reply whose question names another domain ignored n=%ld\n", en, g_wrongq_ignored);
+  if (via_socket) printf("@OUTCOME %s: datagram not received because the socket's read event was disabled (no lookup outstanding) n=%ld; readable events with zero-length datagram / recvfrom failure n=%ld\n", en, g_not_listening, g_rx_nothing);
+  if (lane) printf("@OUTCOME %s: follow-up lookups issued inside a callback n=%ld; pending lookups cancelled from inside another lookup's callback n=%ld\n", en, g_cb_followups, g_cb_cancels);
+  if (cfg_lane) printf("@OUTCOME %s: request() with no server configured refused (id 0, nothing sent, no callback) n=%ld; server failure after the server list changed while pending: completed kAllDnsFail n=%ld / kept waiting n=%ld (both tolerated)\n", en, g_refused, g_srvchg_completed, g_srvchg_waiting);
   return 0;
 }
